@@ -400,7 +400,7 @@ def parse_dot(path, keep=None):
     """TLC -dump dot,actionlabels -> {'inits':[ids], 'nodes':{id:state}, 'edges':{id:[[action,[args],to],..]}}"""
     nodes, edges, inits = {}, {}, []
     node_re = re.compile(r'^(-?\d+) \[label="(.*?)"(,style = filled)?(?:,tooltip=".*")?\];?$')
-    edge_re = re.compile(r'^(-?\d+) -> (-?\d+) \[label="([^"]*)"')
+    edge_re = re.compile(r'^(-?\d+) -> (-?\d+) \[label="((?:[^"\\]|\\.)*)"')
     with open(path) as f:
         for line in f:
             m = edge_re.match(line)
